@@ -61,7 +61,7 @@ theorem witOf_no_signer (e : Env) (acc : Nat) (caller : Option Nat) (cur : Nat)
 /-- the witness a call needs (`none`: the call needs none, or is not a call). -/
 def Op.witness (s : St) : Op → Option Bool
   | .transfer t src _ _ caller _ _ => some (witOf s.env src caller (tokC s.env t))
-  | .vote acc _ caller => some (witOf s.env acc caller s.env.neoC)
+  | .vote acc _ caller _ => some (witOf s.env acc caller s.env.neoC)
   | .unregister pub caller => some (witOf s.env (acctOf s.env pub) caller s.env.neoC)
   | .lock acc _ caller => some (witOf s.env acc caller s.env.notary)
   | .withdraw src _ caller => some (witOf s.env src caller s.env.notary)
@@ -96,7 +96,7 @@ theorem unwitnessed_no_effect (s : St) (op : Op) (h : op.witness s = some false)
         simp only []
         unfold St.done
         split <;> split <;> exact Or.inl rfl
-  | vote acc pub caller =>
+  | vote acc pub caller cb =>
     simp only [Op.witness, Option.some.injEq] at h
     simp only [exec]
     split
@@ -104,7 +104,7 @@ theorem unwitnessed_no_effect (s : St) (op : Op) (h : op.witness s = some false)
     · rw [h]
       unfold votePre
       simp only [Bool.not_false, if_true]
-      unfold St.done; split <;> exact Or.inl rfl
+      unfold St.done; (repeat' split) <;> exact Or.inl rfl
   | unregister pub caller =>
     simp only [Op.witness, Option.some.injEq] at h
     simp only [exec]
